@@ -26,5 +26,8 @@ for f in sorted(glob.glob(os.path.join(V, 'design_notes', 'C*.md'))):
     t = re.sub(r'^(#+) ', lambda m: '###' + m.group(1) + ' ', t, flags=re.M)   # demote headings
     notes.append(f"\n### Notes for {os.path.basename(f)[:-3]} (from design_notes/{os.path.basename(f)})\n\n" + t)
 block('notes', '\n'.join(notes))
+tr = os.path.join(V, 'design_notes', 'translator.md')
+if os.path.exists(tr):
+    block('translator', open(tr).read())
 open(p, 'w').write(s)
 print('DESIGN.md regenerated:', len(rows) - 2, 'seeds,', len(notes), 'notes')
